@@ -179,7 +179,7 @@ Proof. reflexivity. Qed.
 Lemma sites_lemma :
   Forall (fun s => In s [(1, 368, 488); (2, 272, 296); (2, 368, 402); (3, 368, 420)]%N) depuncture_sites /\
   Forall (fun s => In s [(1, 488, 368); (2, 296, 272); (2, 402, 368); (3, 420, 368)]%N) puncture_sites /\
-  Forall (fun s => In s [(1, 61, 46); (2, 41, 34)]%N) puncture_bytes_sites.
+  Forall (fun s => In s [(1, 61, 46); (2, 37, 34)]%N) puncture_bytes_sites.
 Proof. split; [|split]; repeat (apply Forall_cons; [cbn [In]; auto 8|]); apply Forall_nil. Qed.
 
 (** * the four geometries *)
@@ -254,8 +254,8 @@ Proof. intros HP Hl Hc. rewrite depuncture_spec by assumption. f_equal.
 (** the modulator's packed geometries *)
 Lemma c_lsf : 368 <= count_true (mask P1 488).
 Proof. rewrite (proj1 counts). apply le_n. Qed.
-Lemma c_stream_bytes : 272 <= count_true (mask P2 328).
-Proof. assert (C : count_true (mask P2 328) = 301) by reflexivity. rewrite C. lia. Qed.
+Lemma c_stream : 272 <= count_true (mask P2 296).
+Proof. rewrite (proj1 (proj2 counts)). apply le_n. Qed.
 
 Lemma pb_lsf_bits (inp prev : list N) : length prev = 46 ->
   bytes_bits (fst (puncture_bytes_lsf inp prev)) = fst (puncture P1 368 (bytes_bits inp) (bytes_bits prev)).
@@ -277,37 +277,25 @@ Proof. intros Hi Ho. destruct (pb_lsf_rest inp prev Ho) as [E2 E3]. rewrite (pb_
   split; [|split; [reflexivity | exact E3]].
   apply (geometry_exact P1 488 368 HP1 (bytes_bits inp) (proj1 counts)). rewrite bytes_bits_length, Hi. reflexivity. Qed.
 
-Lemma mask_stream_split : mask P2 328 = mask P2 296 ++ mask_from P2 296 32.
-Proof. reflexivity. Qed.
-
 Lemma pb_stream_bits (inp prev : list N) : length prev = 34 ->
   bytes_bits (fst (puncture_bytes_stream inp prev)) = fst (puncture P2 272 (bytes_bits inp) (bytes_bits prev)).
 Proof. intros Ho. exact (proj1 (puncture_bytes_spec P2 34 inp prev Ho)). Qed.
 Lemma pb_stream_rest (inp prev : list N) : length prev = 34 ->
   snd (puncture_bytes_stream inp prev) = snd (puncture P2 272 (bytes_bits inp) (bytes_bits prev)) /\ length (fst (puncture_bytes_stream inp prev)) = 34.
 Proof. intros Ho. exact (proj2 (puncture_bytes_spec P2 34 inp prev Ho)). Qed.
-Lemma p_stream_bits (inp prev : list N) : length inp = 41 -> length prev = 34 ->
-  puncture P2 272 (bytes_bits inp) (bytes_bits prev) = (firstn 272 (keep (mask P2 328) (bytes_bits inp)), 272).
+Lemma p_stream_bits (inp prev : list N) : length inp = 37 -> length prev = 34 ->
+  puncture P2 272 (bytes_bits inp) (bytes_bits prev) = (firstn 272 (keep (mask P2 296) (bytes_bits inp)), 272).
 Proof. intros Hi Ho.
-  assert (Lb : length (bytes_bits inp) = 328) by (rewrite bytes_bits_length, Hi; reflexivity).
+  assert (Lb : length (bytes_bits inp) = 296) by (rewrite bytes_bits_length, Hi; reflexivity).
   assert (Lp : length (bytes_bits prev) = 272) by (rewrite bytes_bits_length, Ho; reflexivity).
-  exact (proj1 (geometry_puncture P2 328 272 HP2 (bytes_bits inp) (bytes_bits prev) c_stream_bytes Lb Lp)). Qed.
+  exact (proj1 (geometry_puncture P2 296 272 HP2 (bytes_bits inp) (bytes_bits prev) c_stream Lb Lp)). Qed.
 
-Lemma stream_prefix {A} (l : list A) : length l = 328 ->
-  firstn 272 (keep (mask P2 328) l) = keep (mask P2 296) (firstn 296 l).
-Proof. intros Hl. rewrite <- (firstn_skipn 296 l) at 1. rewrite mask_stream_split.
-  assert (L1 : length (firstn 296 l) = 296) by (rewrite firstn_length; lia).
-  rewrite keep_app by (unfold mask; rewrite mask_from_length; lia).
-  assert (L2 : length (keep (mask P2 296) (firstn 296 l)) = 272).
-  { rewrite keep_length by (unfold mask; rewrite mask_from_length; lia). reflexivity. }
-  rewrite firstn_app, L2, Nat.sub_diag, firstn_O, app_nil_r. apply firstn_all2. lia. Qed.
-
-Lemma puncture_bytes_stream_lemma (inp prev : list N) : length inp = 41 -> length prev = 34 ->
-  bytes_bits (fst (puncture_bytes_stream inp prev)) = keep (mask P2 296) (firstn 296 (bytes_bits inp)) /\
+Lemma puncture_bytes_stream_lemma (inp prev : list N) : length inp = 37 -> length prev = 34 ->
+  bytes_bits (fst (puncture_bytes_stream inp prev)) = keep (mask P2 296) (bytes_bits inp) /\
   snd (puncture_bytes_stream inp prev) = 272 /\ length (fst (puncture_bytes_stream inp prev)) = 34.
 Proof. intros Hi Ho. destruct (pb_stream_rest inp prev Ho) as [E2 E3]. rewrite (pb_stream_bits inp prev Ho), E2, (p_stream_bits inp prev Hi Ho). cbn [fst snd].
   split; [|split; [reflexivity | exact E3]].
-  apply stream_prefix. rewrite bytes_bits_length, Hi. reflexivity. Qed.
+  apply (geometry_exact P2 296 272 HP2 (bytes_bits inp) (proj1 (proj2 counts))). rewrite bytes_bits_length, Hi. reflexivity. Qed.
 
 (** * statements of the property file *)
 Lemma puncture_general_thm : forall (p : list N) (OUT : nat) (A : Type) (inp prev : list A),
@@ -345,8 +333,8 @@ Lemma puncture_bytes_geometries_thm : forall inp prev : list N,
   (length inp = 61 -> length prev = 46 ->
      bytes_bits (fst (puncture_bytes_lsf inp prev)) = keep (mask P1 488) (bytes_bits inp) /\
      snd (puncture_bytes_lsf inp prev) = 368 /\ length (fst (puncture_bytes_lsf inp prev)) = 46) /\
-  (length inp = 41 -> length prev = 34 ->
-     bytes_bits (fst (puncture_bytes_stream inp prev)) = keep (mask P2 296) (firstn 296 (bytes_bits inp)) /\
+  (length inp = 37 -> length prev = 34 ->
+     bytes_bits (fst (puncture_bytes_stream inp prev)) = keep (mask P2 296) (bytes_bits inp) /\
      snd (puncture_bytes_stream inp prev) = 272 /\ length (fst (puncture_bytes_stream inp prev)) = 34).
 Proof. intros inp prev. split; [exact (puncture_bytes_lsf_lemma inp prev) | exact (puncture_bytes_stream_lemma inp prev)]. Qed.
 
